@@ -411,8 +411,19 @@ def scenario_requires(ctx, U, hostile):
         ('program_extends_package_path', {'ws/game/main.lua': b'package.path = package.path .. ";' + os.path.join(U, 'outside').encode() + b'/?.lua"\n'
                                                               b'm=require("only_out")\n', 'ws/game/lib/a.lua': b'a=1\n'},
          'ws/game/main.lua', '?.lua;lib/?.lua', ['ws/game'], ['outside/only_out.lua']),
+        # a load path entry spelled `./?.lua` is relative to the requiring file like any other relative entry, not to the directory
+        # the command happens to run in
+        ('dot_slash_entry', {'ws/game/main.lua': b'm=require("only_in_cwd")\n', 'elsewhere_cwd/only_in_cwd.lua': b'marker("elsewhere_cwd/only_in_cwd.lua")\n'},
+         'ws/game/main.lua', './?.lua;?.lua', ['ws/game'], ['elsewhere_cwd/only_in_cwd.lua'], 'elsewhere_cwd'),
+        # a package that is a cart (load path pattern `.../?.p8`) and has an #include line: whatever becomes of it, the file of that
+        # name next to the MAIN program is not the cart's
+        ('package_is_a_cart_with_include', {'ws/game/main.lua': b'c=require("cartlib/cartlib")\n',
+                                            'vendor/p8libs/cartlib/cartlib.p8': rc.write_p8(carts.random_regions(__import__('random').Random(3), 'zero')[0],
+                                                                                           b'#include helper.lua\nlib=1\n', version=8),
+                                            'vendor/p8libs/cartlib/helper.lua': b'helper=1\n', 'ws/game/helper.lua': b'marker("ws/game/helper.lua")\n'},
+         'ws/game/main.lua', '?.lua;' + os.path.join(U, 'vendor', 'p8libs', '?.p8'), ['ws/game', 'vendor/p8libs'], ['ws/game/helper.lua']),
     )
-    for name, files, main_rel, lua_path, roots_rel, canaries in layouts:
+    for name, files, main_rel, lua_path, roots_rel, canaries, *more in layouts:
         made = []
         for rel, data in files.items():
             pth = os.path.join(U, rel)
@@ -425,13 +436,17 @@ def scenario_requires(ctx, U, hostile):
         roots = [os.path.join(U, r) for r in roots_rel]
         case = {'kind': 'scenario', 'string': name, 'load_path': (lua_path or '(default)').replace(U, '$U'), 'hostile': hostile}
         ctx.case(('scenario', name, hostile), nontrivial=True)
+        old_cwd = os.getcwd()
         try:
+            if more:
+                os.chdir(os.path.join(U, more[0]))
             with fsmon.Watch(U, roots, hostile) as w:
                 try:
                     tool.main([ambient.vflag(), 'build', out, '--lua', main] + (['--lua-path', lua_path] if lua_path is not None else []))
                 except BaseException:
                     pass
         finally:
+            os.chdir(old_cwd)
             for f in made + [out]:
                 if os.path.exists(f):
                     os.remove(f)
@@ -441,7 +456,10 @@ def scenario_requires(ctx, U, hostile):
             return
         ctx.monitor('legitimate_opens_seen')
         ctx.feature('require_scenario:' + name)
-        outp = w.outside()
+        # files that no require() of the layout names and no cart of the layout may include: opened at all, they were reached
+        # through another file's directive
+        named = [(p_, m) for p_, m in w.events if p_ in {fsmon._norm(os.path.join(U, c)) for c in canaries}]
+        outp = w.outside() or named
         if outp:
             ctx.violation('project layout %s (load path %s, %s fs): opened %s, outside the directories of the requiring files and of the load '
                           'path %s' % (name, case['load_path'], 'hostile' if hostile else 'real', sorted({os.path.relpath(p, U) for p, m in outp}),
@@ -736,7 +754,7 @@ def gates(m, tier):
     N = 3 if tier == 'quick' else 4
     if f.get('strings_enumerated', 0) != len(strings(N)):
         missed.append('strings enumerated %d of %d' % (f.get('strings_enumerated', 0), len(strings(N))))
-    for k in ('cart_loaded_from_stream_without_name', 'cart_under_cwd_relative_carts_folder', 'strings_with_tilde', 'nested_require_from_subdirectory', 'main_named_bare', 'main_named_relative', 'cart_named_bare', 'cart_named_relative', 'links_done', 'strings_through_directory_links', 'strings_with_backslash_separators', 'strings_with_undecodable_bytes', 'sequences_done', 'failed_load_before_case', 'failed_build_before_case', 'include_cfg:subdir', 'absolute_paths_done', 'names_done', 'cart_directories_with_special_characters', 'carts_folder_lookalikes', 'main_file_inside_carts_folder_project', 'strings_with_backslash_digit_values', 'strings_with_blanks_around_a_path', 'output_cart_in_another_directory', 'file_only_in_lower_case_twin_directory', 'require_scenario:ancestor_pattern', 'require_scenario:ancestor_pattern_two', 'require_scenario:package_outside_project', 'require_scenario:entry_without_pattern', 'require_scenario:program_assigns_package_path', 'require_scenario:program_extends_package_path', 'cart_of_the_carts_folder_named_bare_from_elsewhere', 'hostile', 'real_fs', 'include_cfg:plain', 'include_cfg:carts', 'include_cfg:carts2', 'include_rejected',
+    for k in ('cart_loaded_from_stream_without_name', 'cart_under_cwd_relative_carts_folder', 'strings_with_tilde', 'nested_require_from_subdirectory', 'main_named_bare', 'main_named_relative', 'cart_named_bare', 'cart_named_relative', 'links_done', 'strings_through_directory_links', 'strings_with_backslash_separators', 'strings_with_undecodable_bytes', 'sequences_done', 'failed_load_before_case', 'failed_build_before_case', 'include_cfg:subdir', 'absolute_paths_done', 'names_done', 'cart_directories_with_special_characters', 'carts_folder_lookalikes', 'main_file_inside_carts_folder_project', 'strings_with_backslash_digit_values', 'strings_with_blanks_around_a_path', 'output_cart_in_another_directory', 'file_only_in_lower_case_twin_directory', 'require_scenario:ancestor_pattern', 'require_scenario:ancestor_pattern_two', 'require_scenario:package_outside_project', 'require_scenario:entry_without_pattern', 'require_scenario:program_assigns_package_path', 'require_scenario:program_extends_package_path', 'require_scenario:dot_slash_entry', 'require_scenario:package_is_a_cart_with_include', 'cart_of_the_carts_folder_named_bare_from_elsewhere', 'hostile', 'real_fs', 'include_cfg:plain', 'include_cfg:carts', 'include_cfg:carts2', 'include_rejected',
               'include_loaded', 'require_rejected', 'require_built') + tuple('load_path:' + l for l in LOAD_PATHS):
         if f.get(k, 0) < 1:
             missed.append('%s never seen' % k)
